@@ -249,8 +249,17 @@ BEGIN_ == <<66, 69, 71, 73, 78, 32>>
 END_ == <<69, 78, 68, 32>>
 PemLabel == [spki  |-> <<80, 85, 66, 76, 73, 67, 32, 75, 69, 89>>,
              sec1  |-> <<69, 67, 32, 80, 82, 73, 86, 65, 84, 69, 32, 75, 69, 89>>,
-             pkcs8 |-> <<80, 82, 73, 86, 65, 84, 69, 32, 75, 69, 89>>]
+             pkcs8 |-> <<80, 82, 73, 86, 65, 84, 69, 32, 75, 69, 89>>,
+             ecparams |-> <<69, 67, 32, 80, 65, 82, 65, 77, 69, 84, 69, 82, 83>>]
 EncodePEM(kind, der) ==
     DASH5 \o BEGIN_ \o PemLabel[kind] \o DASH5 \o <<10>> \o Wrap64(Base64(der))
     \o DASH5 \o END_ \o PemLabel[kind] \o DASH5 \o <<10>>
+
+\* Text representations of one PEM file (RFC 7468 section 2, "lax" parsing): line ends LF or CRLF, blank or
+\* white-space lines before / between / after, white space at line ends, final line end present or not, are
+\* the same file: two texts are representations of each other iff they agree after all white space
+\* (HT LF CR SP) is removed.
+IsWs(c) == c \in {9, 10, 13, 32}
+Squash(t) == SelectSeq(t, LAMBDA c : ~IsWs(c))
+SameText(a, b) == Squash(a) = Squash(b)
 =============================================================================
